@@ -335,6 +335,9 @@ def reuse(ctx, desc):
             t = threading.current_thread()
             return shims._VThread(4242, t.name)
 
+        def get_ident(self):
+            return 4242
+
         def __getattr__(self, n):
             return getattr(threading, n)
     with shims.patched((TL, 'threading', Idents())):
